@@ -64,7 +64,7 @@ public:
         bool link{false};
     };
 
-    explicit Walker(bool check_registry) : check_registry_(check_registry) {}
+    explicit Walker(bool check_registry) : check_registry_(check_registry && alloc::mode() == alloc::Mode::FULL) {}
 
     WalkResult walk(yakushima::tree_instance* ti) {
         res_ = WalkResult{};
